@@ -30,6 +30,10 @@ def alphabet(dt, rich):
     # two requests in the same callback (second must be rejected: one operation in flight)
     A.append(L.tick(dt, "Q", [["C", 0, None], ["R", 0, 2.3]]))
     A.append(L.tick(dt, "Q", [["U", 0, "PERSIST"], ["C", 0, None]]))
+    # batched in a transaction with an explicit execute() in the middle (nothing may be sent twice)
+    A.append(L.tick(dt, "Q", [["TX", [["C", 0, 2.0], ["U", 1, "PERSIST"]], [1]]]))
+    A.append(L.tick(dt, "Q", [["TX", [["C", 0, 2.0], L.P("PBn")], [1, 2]]]))
+    A.append(L.tick(dt, "Q", [["TX", [["R", 0, 2.3], ["C", 1, None]], [1]]]))
     # request issued together with the market event that completes the order
     A.append(L.tick(dt, "SUS", [["C", 0, None]]))
     A.append(L.tick(dt, "SUS", [["U", 0, "PERSIST"]]))
